@@ -808,8 +808,16 @@ def defaultdict_overwrites(fnode):
                 and isinstance(a.value, ast.Call) and (dotted(a.value.func) or '').split('.')[-1] == 'defaultdict' \
                 and a.value.args and unparse(a.value.args[0]) in ('list', 'set'):
             dds.add(a.targets[0].id)
+    # ... or a dict literal that gives every key an empty collection to be filled: {"MET": set(), "DRUG": set()}
+    lits = set()
+    for a in ast.walk(fnode):
+        if isinstance(a, ast.Assign) and len(a.targets) == 1 and isinstance(a.targets[0], ast.Name) \
+                and isinstance(a.value, ast.Dict) and a.value.values and all(
+                (isinstance(v, ast.Call) and isinstance(v.func, ast.Name) and v.func.id in ('set', 'list') and not v.args)
+                or (isinstance(v, (ast.List, ast.Set)) and not v.elts) for v in a.value.values):
+            lits.add(a.targets[0].id)
     out = []
-    if not dds:
+    if not dds and not lits:
         return out, dds
     for L in [x for x in ast.walk(fnode) if isinstance(x, (ast.For, ast.While))]:
         for a in ast.walk(L):
@@ -817,6 +825,17 @@ def defaultdict_overwrites(fnode):
                     and isinstance(a.targets[0].value, ast.Name) and a.targets[0].value.id in dds:
                 if not any(a is x[1] for x in out):
                     out.append((a.targets[0].value.id, a))
+            # the literal form: only an assignment that does not read the collector back, or a dict-level update()
+            if isinstance(a, ast.Assign) and isinstance(a.targets[0], ast.Subscript) \
+                    and isinstance(a.targets[0].value, ast.Name) and a.targets[0].value.id in lits \
+                    and not any(isinstance(x, ast.Name) and x.id == a.targets[0].value.id for x in ast.walk(a.value)):
+                if not any(a is x[1] for x in out):
+                    out.append((a.targets[0].value.id, a))
+            if isinstance(a, ast.Expr) and isinstance(a.value, ast.Call) and isinstance(a.value.func, ast.Attribute) \
+                    and a.value.func.attr == 'update' and isinstance(a.value.func.value, ast.Name) \
+                    and a.value.func.value.id in lits:
+                if not any(a is x[1] for x in out):
+                    out.append((a.value.func.value.id, a))
     return out, dds
 
 
